@@ -34,6 +34,7 @@ type SStep struct {
 	Lo      int        `json:"lo,omitempty"` // enumeration range [Lo,Hi]; Hi<0 = up to the artefact's end
 	Hi      int        `json:"hi,omitempty"`
 	Kinds   []string   `json:"kinds,omitempty"`
+	Stride  int        `json:"stride,omitempty"` // every_offset over a large artefact: every Stride-th offset, plus dense windows (see step)
 }
 
 type StreamPlan struct {
@@ -766,7 +767,38 @@ func (e *streamExec) step(s *SStep) {
 				kinds = append(kinds, "err_wueof", "err_n1")
 			}
 		}
+		// a large artefact is not enumerated offset by offset: every Stride-th offset, and densely
+		// (+/-40) around the start and the end, around every section boundary and around the
+		// multiples of 32 KiB counted from each boundary (where implementations that read large
+		// sections piecewise change piece)
+		dense := map[int]bool{}
+		if s.Stride > 1 {
+			scale := func(b int) int {
+				if strings.HasSuffix(e.p.API, "b64") {
+					return b / 3 * 4
+				}
+				return b
+			}
+			marks := []int{0, len(e.ref)}
+			bs := []int{0}
+			for b := range e.bounds {
+				bs = append(bs, b)
+			}
+			for _, b := range bs {
+				for m := 0; m <= 8; m++ {
+					marks = append(marks, scale(b+m*32768))
+				}
+			}
+			for _, m := range marks {
+				for d := -40; d <= 40; d++ {
+					dense[m+d] = true
+				}
+			}
+		}
 		for k := s.Lo; k <= hi; k++ {
+			if s.Stride > 1 && k%s.Stride != 0 && !dense[k] {
+				continue
+			}
 			for _, kind := range kinds {
 				if kind == "eof" && k == len(e.ref) {
 					continue
@@ -1167,6 +1199,28 @@ func genStream(r *Rand, g GenCfg) Plan {
 			p.Tokens = []TokSpec{ts}
 			p.Perm = r.Perm(1)
 			n = 1
+		}
+		hugeEntry := false
+		if g.Index%16 == 13 && strings.HasPrefix(p.API, "car") {
+			// a small token and one whose section is far larger than 64 KiB (read and written
+			// piecewise by anything that bounds its buffers)
+			hugeEntry = true
+			ts := uniformDlgSpec(1)
+			ts.Dlg.Meta = append(ts.Dlg.Meta, MetaSpec{Key: "blob", V: ptr(vBytes(r.Bytes(Pick(r, []int{70000, 140000, 205000}))))})
+			p.Cast = nil
+			for i := 0; i < 8; i++ {
+				p.Cast = append(p.Cast, Principal{"ed25519", i})
+			}
+			p.Tokens = []TokSpec{uniformDlgSpec(0), ts}
+			p.Perm = []int{0, 1}
+			n = 2
+		}
+		if hugeEntry {
+			p.Steps = append(p.Steps, SStep{Op: "every_write", Hi: 24})
+			p.Steps = append(p.Steps, SStep{Op: "recover"}, SStep{Op: "chunk"}, SStep{Op: "chunk", Chunks: []int{4096}}, SStep{Op: "chunk", Chunks: []int{1000, 7}, EOFData: true})
+			p.Steps = append(p.Steps, SStep{Op: "every_offset", Hi: -1, Stride: 4099, Kinds: []string{"err", "err_n", "eof", "err_weof"}, Chunks: Pick(r, [][]int{nil, {4096}, {65536}, {1000, 7}})})
+			p.Steps = append(p.Steps, SStep{Op: "recover"})
+			return p
 		}
 		if uniform || n <= 1 || bigEntry {
 			p.Steps = append(p.Steps, SStep{Op: "every_write", Hi: -1})
